@@ -77,6 +77,7 @@ pub fn check(scn: &Scenario) -> Result<CaseInfo, String> {
                 .class_if(ordered, "has-ordered-pattern")
                 .class_if(user_panic, "user-panic-in-answer")
                 .class_if(scn.clones > 0, "uses-clones")
+                .class_if(scn.history.iter().any(|c| c.unwinding), "has-call-by-a-destructor-during-unwinding")
                 .class(super::verdict_class(&cmp.model_verdict)))
         }
     }
